@@ -635,10 +635,17 @@ func c11Misc(c *core.Ctx) {
 		}()
 		ops = waiters * 10
 	case 1: // context combinators: concurrent cancellation and observation
-		for rep := 0; rep < 20; rep++ {
+		for rep := 0; rep < 60; rep++ {
 			a, ca := context.WithCancel(context.WithValue(context.Background(), ctxKey("k"), 1))
 			b, cb := context.WithCancel(context.Background())
 			d, cd := context.WithCancel(context.Background())
+			if rep%2 == 1 {
+				// an independent goroutine cancels one of the others at about the time the combinators register
+				// their callbacks (nothing orders it against the registration)
+				n := c.Rng.IntN(40)
+				wg.Add(1)
+				go func() { defer wg.Done(); spin(n); cb() }()
+			}
 			comb := bigbuff.CombineContext(a, b, nil, d)
 			conf, cconf := bigbuff.ConflatedContext(a, b, d)
 			calls := new(Payload)
